@@ -1067,3 +1067,143 @@ Proof.
   intros Hs Hl E. destruct (exec_valid size local ops Hs Hl) as [t' [E' [V _]]].
   rewrite E in E'. injection E' as <-. apply update_added_in_table. exact V.
 Qed.
+
+(** * Update never loses a peer: bucket unfolding only moves entries, MoveToFront permutes the
+      bucket, and a full table rejects the newcomer instead of evicting *)
+
+Lemma in_table_set_bucket t i b' p :
+  i < length (t_buckets t) ->
+  (forall q, In q (get_bucket t i) -> In q b') ->
+  in_table t p -> in_table (set_bucket t i b') p.
+Proof.
+  intros Hi Hsub [j [b [E Hp]]].
+  destruct (Nat.eqb_spec i j) as [<-|Hne].
+  - exists i, b'. split.
+    + unfold set_bucket; simpl. rewrite nth_error_upd, Nat.eqb_refl.
+      apply Nat.ltb_lt in Hi. rewrite Hi. reflexivity.
+    + apply Hsub. rewrite (get_bucket_nth_error t i Hi) in E. injection E as <-. exact Hp.
+  - exists j, b. split; [|exact Hp].
+    unfold set_bucket; simpl. rewrite nth_error_upd.
+    destruct (Nat.eqb_spec i j); [contradiction|exact E].
+Qed.
+
+Lemma unfold_step_keeps t p :
+  1 <= length (t_buckets t) -> in_table t p -> in_table (unfold_step t) p.
+Proof.
+  intros Hn [j [b [E Hp]]].
+  set (li := length (t_buckets t) - 1).
+  assert (Hli : li < length (t_buckets t)) by (unfold li; lia).
+  assert (Hj : j < length (t_buckets t)) by (apply nth_error_Some; congruence).
+  destruct (Nat.eqb_spec li j) as [<-|Hne].
+  - rewrite (get_bucket_nth_error t li Hli) in E. injection E as <-.
+    destruct (split_moves li (t_local t) p) eqn:M.
+    + exists (length (t_buckets t)), (split_out li (t_local t) (get_bucket t li)). split.
+      * unfold unfold_step; simpl. fold li.
+        rewrite nth_error_app2 by (rewrite upd_length; lia).
+        rewrite upd_length, Nat.sub_diag. reflexivity.
+      * unfold split_out. apply filter_In. split; assumption.
+    + exists li, (split_keep li (t_local t) (get_bucket t li)). split.
+      * unfold unfold_step; simpl. fold li.
+        rewrite nth_error_app1 by (rewrite upd_length; exact Hli).
+        rewrite nth_error_upd, Nat.eqb_refl.
+        apply Nat.ltb_lt in Hli. rewrite Hli. reflexivity.
+      * unfold split_keep. apply filter_In. split; [assumption|]. rewrite M. reflexivity.
+  - exists j, b. split; [|exact Hp].
+    unfold unfold_step; simpl. fold li.
+    rewrite nth_error_app1 by (rewrite upd_length; exact Hj).
+    rewrite nth_error_upd. destruct (Nat.eqb_spec li j); [contradiction|exact E].
+Qed.
+
+Lemma unfold_step_length t : length (t_buckets (unfold_step t)) = S (length (t_buckets t)).
+Proof. unfold unfold_step; simpl. rewrite app_length, upd_length; simpl; lia. Qed.
+
+Lemma next_bucket_keeps fuel : forall t t' p,
+  1 <= length (t_buckets t) -> next_bucket fuel t = Some t' -> in_table t p -> in_table t' p.
+Proof.
+  induction fuel as [|fuel IH]; intros t t' p Hn H Hp; [discriminate|].
+  rewrite next_bucket_unfold in H.
+  destruct kb_unfold_again.
+  - apply (IH (unfold_step t)); [rewrite unfold_step_length; lia|exact H|].
+    apply unfold_step_keeps; assumption.
+  - injection H as <-. apply unfold_step_keeps; assumption.
+Qed.
+
+Lemma update_keeps_peers t id addr p :
+  valid t -> in_table t p -> in_table (fst (update t id addr)) p.
+Proof.
+  intros V Hp. unfold update.
+  rewrite (bi_update_1 t id (v_nonempty t V)).
+  assert (Hi : home t id < length (t_buckets t)) by (apply home_lt, (v_nonempty t V)).
+  destruct (has id (get_bucket t (home t id))).
+  { destruct (move_to_front id (get_bucket t (home t id))) as [b'|] eqn:M; simpl; [|exact Hp].
+    apply in_table_set_bucket; [exact Hi| |exact Hp].
+    intros q Hq. unfold move_to_front in M.
+    destruct (find_first id (get_bucket t (home t id))) as [f|] eqn:F.
+    - destruct (count_id id _ <=? 1); [|discriminate]. injection M as <-.
+      destruct (find_first_perm _ _ _ F) as [HP _]. eapply Permutation_in; [exact HP|exact Hq].
+    - injection M as <-. exact Hq. }
+  destruct (kb_update_has_room _ _).
+  { simpl. apply in_table_set_bucket; [exact Hi| |exact Hp]. intros q Hq. right. exact Hq. }
+  destruct (kb_update_is_last _ _); [|simpl; exact Hp].
+  destruct (next_bucket unfold_fuel t) as [t'|] eqn:NB; [|simpl; exact Hp].
+  destruct (next_bucket_valid _ _ _ V NB) as [V' [_ [_ Hl]]].
+  pose proof (next_bucket_keeps _ _ _ p (v_nonempty t V) NB Hp) as Hp'.
+  pose proof (bi_update_2 t' id (v_nonempty t' V')) as B. rewrite Hl in B. rewrite B.
+  destruct (kb_update_still_full _ _); simpl; [exact Hp'|].
+  apply in_table_set_bucket; [apply home_lt, (v_nonempty t' V')| |exact Hp'].
+  intros q Hq. right. exact Hq.
+Qed.
+
+Lemma update_keeps_reachable size local ops id addr t p :
+  (1 <= size)%Z -> length local = KB_ID_LEN ->
+  exec (new_table size local) ops = Some t ->
+  in_table t p -> in_table (fst (update t id addr)) p.
+Proof.
+  intros Hs Hl E. destruct (exec_valid size local ops Hs Hl) as [t' [E' [V _]]].
+  rewrite E in E'. injection E' as <-. apply update_keeps_peers. exact V.
+Qed.
+
+(** ... and Remove(id) removes nothing but peers with that id *)
+Lemma remove_first_keeps id b q : In q b -> fst q <> id -> In q (remove_first id b).
+Proof.
+  induction b as [|x r IH]; simpl; [tauto|].
+  intros [->|Hq] Hne.
+  - destruct (id_eqb (fst q) id) eqn:E; [apply id_eqb_eq in E; contradiction|left; reflexivity].
+  - destruct (id_eqb (fst x) id); [exact Hq|right; apply IH; assumption].
+Qed.
+
+Lemma in_table_set_bucket_one t i b' p :
+  i < length (t_buckets t) ->
+  (In p (get_bucket t i) -> In p b') ->
+  in_table t p -> in_table (set_bucket t i b') p.
+Proof.
+  intros Hi Hsub [j [b [E Hp]]].
+  destruct (Nat.eqb_spec i j) as [<-|Hne].
+  - exists i, b'. split.
+    + unfold set_bucket; simpl. rewrite nth_error_upd, Nat.eqb_refl.
+      apply Nat.ltb_lt in Hi. rewrite Hi. reflexivity.
+    + apply Hsub. rewrite (get_bucket_nth_error t i Hi) in E. injection E as <-. exact Hp.
+  - exists j, b. split; [|exact Hp].
+    unfold set_bucket; simpl. rewrite nth_error_upd.
+    destruct (Nat.eqb_spec i j); [contradiction|exact E].
+Qed.
+
+Lemma remove_keeps_others t id p :
+  valid t -> in_table t p -> fst p <> id -> in_table (fst (remove t id)) p.
+Proof.
+  intros V Hp Hne. unfold remove.
+  rewrite (bi_remove t id (v_nonempty t V)).
+  assert (Hi : home t id < length (t_buckets t)) by (apply home_lt, (v_nonempty t V)).
+  destruct (has id (get_bucket t (home t id))); simpl; [|exact Hp].
+  apply in_table_set_bucket_one; [exact Hi| |exact Hp].
+  intro Hq. apply remove_first_keeps; assumption.
+Qed.
+
+Lemma remove_keeps_reachable size local ops id t p :
+  (1 <= size)%Z -> length local = KB_ID_LEN ->
+  exec (new_table size local) ops = Some t ->
+  in_table t p -> fst p <> id -> in_table (fst (remove t id)) p.
+Proof.
+  intros Hs Hl E. destruct (exec_valid size local ops Hs Hl) as [t' [E' [V _]]].
+  rewrite E in E'. injection E' as <-. apply remove_keeps_others. exact V.
+Qed.
